@@ -70,7 +70,9 @@ func (d *dateObject) Value() Value {
 	return d.value
 }
 
-// FIXME A date should only be in the range of -100,000,000 to +100,000,000 (1970): 15.9.1.1.
+// maxTimeValue is the largest time value: 100,000,000 days either side of the epoch (15.9.1.1).
+const maxTimeValue = 8.64e15
+
 func (d *dateObject) SetNaN() {
 	d.time = Time.Time{}
 	d.epoch = -1
@@ -110,7 +112,8 @@ func epochToInteger(value float64) int64 {
 
 func epochToTime(value float64) (Time.Time, error) {
 	epochWithMilli := value
-	if math.IsNaN(epochWithMilli) || math.IsInf(epochWithMilli, 0) {
+	// TimeClip (15.9.1.14): a time value outside the range of 15.9.1.1 is NaN.
+	if math.IsNaN(epochWithMilli) || math.IsInf(epochWithMilli, 0) || math.Abs(epochWithMilli) > maxTimeValue {
 		return Time.Time{}, fmt.Errorf("invalid time %v", value)
 	}
 
